@@ -41,6 +41,7 @@ RISKY_FLAGS = [
     'prefix_special',        # character(len=4, kind=1) function f()
     'if_string_paren',       # if (s == ') call fake(') call real()
     'nested_contains_last',  # last module procedure has internal procedures and another module follows
+    'kw_binding_nocolon',    # first type-bound procedure is 'procedure subroutine_x' (keyword-like name, no '::')
     'call_in_spec_string',   # reserved
 ]
 
@@ -264,6 +265,10 @@ class HostileGen:
                 [(p, 'par') for p in mod['params']] + [(g, 'gen') for g in mod['generics']] + \
                 [(f, 'fun') for f in mod['funs']]
         form = rng.random()
+        if self.f.get('imports_params_only'):
+            # only named constants are imported (no procedure / type links across modules)
+            cands = [c for c in cands if c[1] == 'par']
+            form = 0.5
         head = [self.K('use')]
         nature = ''
         if self.on('use_double_colon') and rng.random() < 0.7:
@@ -305,7 +310,7 @@ class HostileGen:
                     local[key[kind]].append(s)
                     if kind == 'sub':
                         local['subargs'][s] = mod['subargs'][s]
-            if self.on('operator_import') and mod['ops'] and rng.random() < 0.7:
+            if self.on('operator_import') and mod['ops'] and rng.random() < 0.7 and not self.f.get('imports_params_only'):
                 op = rng.choice(mod['ops'])
                 items.insert(rng.randint(0, len(items)), [self.K('operator'), self.sp(1) + '(', op, ')'])
                 imp['symbols'].append((f'operator({op})'.lower(), ''))
@@ -789,9 +794,12 @@ class HostileGen:
                 bound = []
                 for bi in range(nb):
                     impl = self.fresh('tb_')
+                    if self.on('kw_binding_nocolon') and bi == 0:
+                        impl = rng.choice(['subroutine_x', 'function_y']) + f'_{self.ncount}'
+                        self.names.add(impl)
                     argk = 'int' if bi % 2 == 0 else 'real'
                     bname = impl
-                    renamed = rng.random() < 0.5
+                    renamed = rng.random() < 0.5 and not (self.on('kw_binding_nocolon') and bi == 0)
                     if renamed:
                         bname = self.fresh('bn_')
                     attrs_b = ''
@@ -804,7 +812,12 @@ class HostileGen:
                     elif r < 0.3:
                         attrs_b = ', ' + self.K(rng.choice(['pass', 'public', 'non_overridable']))
                     ch = [self.K('procedure'), attrs_b]
-                    if attrs_b or renamed or rng.random() < 0.8:
+                    kwname = 'subroutine' in bname.lower() or 'function' in bname.lower()
+                    if self.on('kw_binding_nocolon') and bi == 0 and not attrs_b and not renamed and kwname:
+                        ch.append(' ')
+                        self.feat('kw_binding_nocolon')
+                        unit['tags'].add('kw_binding_nocolon')
+                    elif attrs_b or renamed or kwname or rng.random() < 0.8:
                         ch.append(self.sp(1) + '::' + self.sp(1))
                     else:
                         ch.append(' ')
